@@ -273,7 +273,19 @@ func runOneCtx(ctx context.Context, s solverSpec, body string, tmo int, n int64,
 	cmd.Run()
 	dt := time.Since(t0).Seconds()
 	o := out.String()
-	line := strings.TrimSpace(strings.SplitN(o, "\n", 2)[0])
+	line := ""
+	rest := o
+	for _, l := range strings.Split(o, "\n") {
+		l = strings.TrimSpace(l)
+		if l == "sat" || l == "unsat" || l == "unknown" || l == "timeout" {
+			line = l
+			if i := strings.Index(o, l+"\n"); i >= 0 {
+				rest = o[i:]
+			}
+			break
+		}
+	}
+	o = rest
 	r := SolverResult{Solver: s.name, Seconds: dt, Output: trunc(o, 4000)}
 	switch {
 	case line == "unsat":
